@@ -388,9 +388,120 @@ def check_inner_survives_stacking(ctx, prop, fparams, decorate_src):
                       dict(w, advertised=before[1], shape=[sp.shapes[k][0], sorted(sp.shapes[k][1])], before=repr(before[2][k])[:200], after=repr(after[2][k])[:200]), rp)
 
 
+SIBLINGS_SRC = '''
+from sigtools import modifiers
+def impl(self, a, b=2, c=3): return (a, b, c)
+class A(object):
+    plain = impl
+    by_kw = modifiers.kwoargs('b')(impl)
+    by_po = modifiers.posoargs(end='a')(impl)
+    by_auto = modifiers.autokwoargs(impl)
+class Sub(A):
+    # a further modifier stacked on an attribute that was (or was not yet) looked up through its class
+    stacked = modifiers.posoargs(end='a')(A.by_kw)
+    def call_super(self): return super().by_kw
+'''
+SIBLING_WANT = {'plain': '(a, b=2, c=3)', 'by_kw': '(a, c=3, *, b=2)', 'by_po': '(a, /, b=2, c=3)', 'by_auto': '(a, *, b=2, c=3)',
+                'stacked': '(a, /, c=3, *, b=2)'}
+
+
+@core.guarded(None)
+def check_siblings(ctx, prop, order_seed):
+    """Several differently decorated attributes of one class wrap the SAME function; one is stacked on another in a
+    subclass.  Looked up through classes and instances in a seeded order, with bound copies kept alive: every lookup
+    advertises and enforces its own selection, whatever was looked up before."""
+    import random
+    import sigtools
+    rnd = random.Random(order_seed)
+    ns = sigs.compile_module(SIBLINGS_SRC.lstrip('\n'), tag='vmodsib')
+    A, Sub = ns['A'], ns['Sub']
+    x, y = A(), Sub()
+    keep = []
+    accesses = []
+    for name in ('plain', 'by_kw', 'by_po', 'by_auto'):
+        accesses += [('A().%s' % name, lambda n=name: getattr(x, n), name), ('Sub().%s' % name, lambda n=name: getattr(y, n), name)]
+    accesses += [('Sub().stacked', lambda: y.stacked, 'stacked'), ('super().by_kw', lambda: y.call_super(), 'by_kw'),
+                 ('A.by_kw (class)', lambda: A.by_kw, None), ('Sub.stacked (class)', lambda: Sub.stacked, None)]
+    rnd.shuffle(accesses)
+    ctx.evaluated()
+    ctx.count('%s.sibling_sequences' % prop)
+    rp = dict(workload='mod-siblings', order_seed=order_seed)
+    done = []
+    for label, get, kind in accesses + accesses[:4]:
+        done.append(label)
+        try:
+            obj = get()
+            keep.append(obj)
+            if kind is None:
+                str(sigtools.signature(obj))
+                continue
+            got = (str(inspect.signature(obj)), str(sigtools.signature(obj)))
+        except Exception as e:
+            ctx.violation(prop, 'ModifierBoundary', 'sibling-lookup-raises-%s' % type(e).__name__,
+                          'looking up / inspecting %s raised %s: %s' % (label, type(e).__name__, e), {'sequence': done}, rp)
+            return
+        if got != (SIBLING_WANT[kind], SIBLING_WANT[kind]):
+            ctx.violation(prop, 'ModifierBoundary', 'sibling-decoration-confused',
+                          '%s advertises %s, its own decoration says %s' % (label, got[0], SIBLING_WANT[kind]),
+                          {'sequence': done, 'inspect': got[0], 'sigtools': got[1]}, rp)
+            return
+        # enforced: b by keyword only / a positionally only where the selection says so
+        probes = {'by_kw': ((1, 5), {}, True), 'by_po': ((), {'a': 1}, False), 'by_auto': ((1, 5), {}, False), 'stacked': ((), {'a': 1}, False)}
+        if kind in probes:
+            pa, pk, ok_expected = probes[kind]
+            try:
+                obj(*pa, **pk)
+                ok = True
+            except TypeError:
+                ok = False
+            if kind == 'by_kw':
+                ok_expected = True          # (1, 5): a=1, c=5
+            if ok != ok_expected:
+                ctx.violation(prop, 'ModifierBoundary', 'sibling-decoration-not-enforced',
+                              '%s %s the call %r %r, its own decoration says otherwise' % (label, 'accepts' if ok else 'rejects', pa, pk),
+                              {'sequence': done}, rp)
+                return
+    ctx.nontrivial(('siblings', tuple(l for l, _, _ in accesses)))
+
+
+@core.guarded(None)
+def check_bound_decoration(ctx, prop, case):
+    """A modifier applied to an already BOUND callable (obj.method, Class.classmethod): admissible selections work like on
+    the function without its first parameter, a selection naming a parameter that does not exist raises ValueError."""
+    from sigtools import modifiers
+    src = ('class H(object):\n    def m(self, a, b=2, c=3): return (a, b, c)\n'
+           '    @classmethod\n    def k(cls, a, b=2, c=3): return (a, b, c)\n')
+    ns = sigs.compile_module(src, tag='vmodbound')
+    H = ns['H']
+    bound = H().m if case % 2 == 0 else H.k
+    rp = dict(workload='mod-bound', case=case)
+    w = {'decorated': 'H().m' if case % 2 == 0 else 'H.k (classmethod)', 'function': 'def m(self, a, b=2, c=3)'}
+    ctx.evaluated()
+    ctx.count('%s.bound_decorations' % prop)
+    for label, deco, want in (("kwoargs('b')", lambda: modifiers.kwoargs('b'), '(a, c=3, *, b=2)'),
+                              ("posoargs(end='a')", lambda: modifiers.posoargs(end='a'), '(a, /, b=2, c=3)'),
+                              ("kwoargs('zq_unknown')", lambda: modifiers.kwoargs('zq_unknown'), ValueError),
+                              ("kwoargs('b', 'zq_unknown')", lambda: modifiers.kwoargs('b', 'zq_unknown'), ValueError),
+                              ("posoargs('zq_unknown')", lambda: modifiers.posoargs('zq_unknown'), ValueError),
+                              ("kwoargs(start='zq_unknown')", lambda: modifiers.kwoargs(start='zq_unknown'), ValueError)):
+        try:
+            got = str(inspect.signature(deco()(bound)))
+        except ValueError:
+            got = ValueError
+        except Exception as e:
+            got = 'raised %s' % type(e).__name__
+        if got != want:
+            ctx.violation(prop, 'ModifierBoundary', 'bound-callable-decoration' if want is not ValueError else 'inadmissible-selection-accepted-on-bound-callable',
+                          'modifiers.%s applied to %s gives %s, expected %s' % (label, w['decorated'], got, 'ValueError' if want is ValueError else want),
+                          dict(w, decorator=label), rp)
+            return
+    ctx.nontrivial(('bound-decoration', case % 2))
+
+
 def run_c12(ctx):
     tier = ctx.tier
     rnd = ctx.rng('mod')
+    run_siblings(ctx, 'C12')
     idx = 0
     for fparams in function_universe(ctx, tier):
         if ctx.out_of_time('modifier decorations'):
@@ -414,7 +525,19 @@ def run_c12(ctx):
                     check_inner_survives_stacking(ctx, 'C12', fp, deco)
 
 
+def run_siblings(ctx, prop):
+    rnd = ctx.rng('mod-siblings')
+    for k in range({'quick': 40, 'thorough': 2000}[ctx.tier] // max(1, ctx.nshards) + 1):
+        check_siblings(ctx, prop, rnd.getrandbits(32))
+    for case in (0, 1):
+        check_bound_decoration(ctx, prop, case)
+
+
 def replay(ctx, rec, prop='C12'):
+    if rec.get('workload') == 'mod-siblings':
+        return check_siblings(ctx, prop, rec['order_seed'])
+    if rec.get('workload') == 'mod-bound':
+        return check_bound_decoration(ctx, prop, rec['case'])
     if rec.get('workload') == 'mod-inner-survives':
         return check_inner_survives_stacking(ctx, prop, sigs.from_json(rec['fparams']), rec['decorators'])
     check_case(ctx, prop, sigs.from_json(rec['fparams']), rec['decorators'], set(rec['make_kwo']),
